@@ -5,13 +5,15 @@
         stores the compiled JSON Schema value of one case (`JS`: Cog/Front/JsonSchema.lean);
     jsfront <id>                                             → ok <VIR of (schemas S)> | err | panic
         runs the MODEL of the front-end (`generateAST`) — compared with the VIR of the real `GenerateAST`;
-    jsfdoc <id> <real-id> <json-sexp>                        → valid=<b> strict=<b> modelled=<b> frag=<b> wf=<b>
+    jsfdoc <id> <real-id> <json-sexp>                        → plainS=<b> e2e=<b|n/a> valid=<b> strict=<b> modelled=<b> frag=<b> wf=<b>
                                                                src=<b> msrc=<b> why=<…>
         valid    : `jsValid`   (compared with the library's own `Schema.Validate`)
         strict   : `jsValidX`  (hypothesis of C01_jsonschema_parser_sound_partial)
         modelled : every validation keyword of the case is read by `jsv`
         frag     : `FragJS defs root`      wf : `wfDeep doc`   (hypotheses)
         src      : `srcDen` of the REAL front-end IR `<real-id>` (stored with `defschemas`)  — conclusion
+        plainS   : `PlainS` of the REAL front-end IR;  e2e : when FragJS ∧ PlainS ∧ strict ∧ wf hold, the conclusion of
+                   C01_jsonschema_end_to_end_partial evaluated on the pass models' output of the REAL front-end IR
         msrc     : `srcDen` of the MODEL's IR
         why      : first reason for `src=false` (diagnostic)
 
@@ -251,7 +253,18 @@ def jsfdocLine (rest : String) : IO String := do
           | .ok m => toString (srcDen (frontFuel + soundSlack) m t j)
           | _ => "err"
         let why := if src then "-" else (srcWhy real (frontFuel + soundSlack) t j).getD "unexplained"
-        return s!"valid={valid} strict={strict} modelled={c.modelled} frag={c.frag} wf={wfDeep j} src={src} msrc={msrc} why={why} notfrag={c.notfrag}"
+        -- instance of C01_jsonschema_end_to_end_partial on the REAL front-end IR (pass models, codec model)
+        let prep ← srcPrep realId real
+        let e2e :=
+          if c.frag && prep.plainS && strict && wfDeep j then
+            match prep.model with
+            | some S' =>
+              (match goRoundTrip (frontFuel + soundSlack + 1) S' c.pkg (rootName c.pkg c.root) j with
+               | .ok j' => toString (Json.eqv j' j)
+               | _ => "false")
+            | none => "chain-err"
+          else "n/a"
+        return s!"plainS={prep.plainS} e2e={e2e} valid={valid} strict={strict} modelled={c.modelled} frag={c.frag} wf={wfDeep j} src={src} msrc={msrc} why={why} notfrag={c.notfrag}"
     | none, _ => return "unknown-case"
     | _, none => return "unknown-schemas"
   | _ => return "bad-request"
